@@ -35,12 +35,12 @@ pub fn gen_impl_trait_arbitrary<T: ToTokens>(
                 let inner_value: #inner_type = u.int_in_range((#min)..=(#max))?;
                 Ok(#construct_value)
             }
-        }
 
-        #[inline]
-        fn size_hint(_depth: usize) -> (usize, Option<usize>) {
-            let n = ::core::mem::size_of::<#inner_type>();
-            (n, Some(n))
+            #[inline]
+            fn size_hint(_depth: usize) -> (usize, Option<usize>) {
+                let n = ::core::mem::size_of::<#inner_type>();
+                (n, Some(n))
+            }
         }
     ))
 }
